@@ -55,8 +55,26 @@ def loop_drivers(eng):
     g = eng.fn
     loops = g.loops(unwind=False)
     out = {}
+    # pipelines expanded by the inliner: the block that used to call `next` on the whole pipeline stands for that call;
+    # the `next` calls synthesised for the stages underneath are not loop drivers of their own
+    virtual = {}
+    for vb, blk in enumerate(g.blocks):
+        vt = blk["term"]
+        if vt.get("lazy") and not vt.get("lazy_inner"):
+            leaf = vt["lazy"]["hdr"]
+            for _ in range(8):
+                lt = g.blocks[leaf]["term"]
+                if lt.get("lazy"):
+                    leaf = lt["lazy"]["hdr"]
+                else:
+                    break
+            virtual[leaf] = vb
     for (kind, b, si), ev in eng.event_index.items():
         drv = None
+        if kind == "iter" and ev.op == "next" and g.blocks[b]["term"].get("lazy_inner") and b not in virtual:
+            continue
+        if kind == "iter" and ev.op == "next" and b in virtual:
+            b = virtual[b]
         if kind == "iter" and ev.op == "next":
             src = iter_source(ev.recv)
             if src is None:
@@ -93,13 +111,13 @@ def iter1(eng, out):
         # user code inside a hash-ordered loop: if it panics, the elements processed so far are an
         # order-dependent subset (worklists / vectors drained with pop are exempt: their owner's drop
         # glue finishes the job in any order)
-        if g.blocks[nb]["term"]["k"] == "call" and (g.blocks[nb]["term"]["callee"] or {}).get("def") == "core::iter::Iterator::next":
+        if (g.blocks[nb]["term"]["k"] == "call" and (g.blocks[nb]["term"]["callee"] or {}).get("def") == "core::iter::Iterator::next") or g.blocks[nb]["term"].get("lazy"):
             for (ek, eb, esi), ev in eng.event_index.items():
                 if ek in ("user", "handle_drop", "indirect") and eb in body and not g.blocks[eb]["cleanup"]:
                     out.violate("ITER-1", "user-code-in-hash-ordered-loop", "user code (%s) runs inside a loop over a %s; if it panics the loop stops after an order-dependent subset of the elements" % (
                         ev.get("ty") or ev.get("method") or ek, desc), where_of(g, eb), entry=eng.name)
         # the switch on the driving call's result
-        cur = g.blocks[nb]["term"].get("target")
+        cur = g.blocks[nb]["term"]["lazy"]["target"] if g.blocks[nb]["term"].get("lazy") else g.blocks[nb]["term"].get("target")
         sw = None
         hops = 0
         while cur is not None and hops < 6:
